@@ -10,7 +10,7 @@ def split_case(op, j):
     return f"{head}) {parts[0]} {parts[1 + j]}"
 
 
-def run_vm_property(ctx, modules, profile, oracle_kind, corr_kind, rule, assumptions, featuresets=("default", "extras"), extra_runs=None):
+def run_vm_property(ctx, modules, profile, oracle_kind, corr_kind, rule, assumptions, featuresets=("default", "extras"), extra_runs=None, search=None):
     frag, problems = proof_leg(ctx, modules)
     allcs, stats, found_input = [], {}, False
     for fs in featuresets:
@@ -61,6 +61,13 @@ def run_vm_property(ctx, modules, profile, oracle_kind, corr_kind, rule, assumpt
                     for j, (x, y) in enumerate(zip(a, b)):
                         if x != y:
                             bad.append((split_case(op, j), x, y))
+                hit = search(ctx, fs, drv, bad) if search else None
+                if hit:
+                    # the correspondence broke and the search found an input on which the property itself fails
+                    hit["features"] = fs
+                    ctx.violation(hit)
+                    found_input = True
+                    continue
                 case, imp, mod = min(bad, key=lambda t: (len(t[0]), t[0]))
                 ctx.violation({"kind": corr_kind + " no longer checks; the property's oracle is satisfied on all explored cases",
                                "features": fs, "case": case, "impl": imp, "model": mod, "mismatching_inputs_in_run": len(bad)}, no_input=True)
